@@ -55,6 +55,18 @@ Proof.
 Qed.
 Print Assumptions C17_incremental_refuted_id_is_label.
 
+(* a call that generate_revision accepts writes into a configured version location, i.e. into a directory that
+   a reload scans (with or without recursive_version_locations) *)
+Theorem C17_accepted_is_scanned : forall rec locs p, accept_path locs p = true -> scanned rec locs p = true.
+Proof. exact C17Proof.accepted_is_scanned. Qed.
+Print Assumptions C17_accepted_is_scanned.
+
+(* a sub-directory of a location is not scanned unless recursive_version_locations is on, a sibling never *)
+Theorem C17_subdir_not_scanned : scanned false [[1; 2]] [1; 2; 3] = false /\ scanned true [[1; 2]] [1; 2; 3] = true
+  /\ scanned true [[1; 2]] [1; 4] = false /\ accept_path [[1; 2]] [1; 2; 3] = false.
+Proof. vm_compute. auto. Qed.
+Print Assumptions C17_subdir_not_scanned.
+
 Theorem C17_decider_sound : forall i o, check_C17 i o = true -> C17_holds i o.
 Proof. exact C17Proof.decider_sound. Qed.
 Print Assumptions C17_decider_sound.
@@ -72,11 +84,12 @@ Create Date: 2026-01-01
 
 ".
 Definition ex_steps : c17_in :=
-  [mkStep (mkF 0 [] [] [7]) (lit "r0") [] [lit "lab'0"] [] [] ex_doc;
-   mkStep (mkF 1 [0] [] []) (lit "r1") [lit "r0"] [] [] [] ex_doc;
-   mkStep (mkF 2 [] [7; 1] [8]) (lit "r2é") [] [lit "b"] [lit "lab'0"; lit "r1"] [] ex_doc;
-   mkStep (mkF 3 [1; 2] [] []) (lit "r3") [lit "r1"; lit "r2é"] [] [] [] ex_doc].
-Example C17_main_nonvacuous : inclass_C17 ex_steps = true /\ length (model_C17 ex_steps) = 4%nat /\ check_C17 ex_steps (model_C17 ex_steps) = true.
+  [mkStep (mkF 9 [] [] []) (lit "rejected") [] [] [] [] ex_doc [[1; 2]] false [1; 2; 3];
+   mkStep (mkF 0 [] [] [7]) (lit "r0") [] [lit "lab'0"] [] [] ex_doc [[1; 2]] false [1; 2];
+   mkStep (mkF 1 [0] [] []) (lit "r1") [lit "r0"] [] [] [] ex_doc [[1; 2]] false [1; 2];
+   mkStep (mkF 2 [] [7; 1] [8]) (lit "r2é") [] [lit "b"] [lit "lab'0"; lit "r1"] [] ex_doc [[1; 2]] false [1; 2];
+   mkStep (mkF 3 [1; 2] [] []) (lit "r3") [lit "r1"; lit "r2é"] [] [] [] ex_doc [[1; 2]] false [1; 2]].
+Example C17_main_nonvacuous : inclass_C17 ex_steps = true /\ length (model_C17 ex_steps) = 5%nat /\ check_C17 ex_steps (model_C17 ex_steps) = true.
 Proof. vm_compute. auto. Qed.
 Example C17_incremental_nonvacuous : exists L, load [mkF 0 [] [] [7]; mkF 1 [0] [] []] = MOk L /\ wf_new [mkF 0 [] [] [7]; mkF 1 [0] [] []] (mkF 2 [] [7; 1] [8]) = true.
 Proof. eexists. split; vm_compute; reflexivity. Qed.
